@@ -195,12 +195,15 @@ def main(argv=None):
             if os.environ.get("PYVC_VERBOSE"):
                 print(c)
         code = 3
-    seen = set()
+    seen = {}
+    import re as _re
     for job, name, rep, has_input in violations:
-        key = (job, name)
+        base = _re.sub(r"\[[^\]]*\]$", "", name)       # one VIOLATION line per obligation, bounded cases are listed in the replay file
+        key = (job, base)
         if key in seen:
+            seen[key].append(name)
             continue
-        seen.add(key)
+        seen[key] = [name]
         fn = "%s.%s.json" % (job, name.replace(":", "_").replace("@", "_").replace("/", "_"))
         path = os.path.join(VERIF, "replays", prop, fn)
         rep["replay_cmd"] = "./check %s --replay %s" % (prop, path)
